@@ -1867,3 +1867,8 @@ func lemmaSliceConcat(seq Sequence, c int) Sequence {
 //@   requires !isnil(seq)
 //@   ensures sameslice(out.data, bytesOf(seq)) && sameslice(out.table, featsOf(seq)) && out.info == infoOf(seq)
 //@   assigns nothing
+
+//@ func AsLocation(s string) (loc Location, err error)
+//@   trusted runs the combinator-built location grammar on the string (bounded stand-in: location_bounded_test.go); on success the value is a location
+//@   ensures isnil(err) ==> !isnil(loc)
+//@   assigns nothing
